@@ -21,7 +21,10 @@ var KindMenu = []Tok{
 
 // JunkMenu: characters that are not part of any front-end token (a file containing one outside literals, comments
 // and actions violates the documented syntax at the token level).
-var JunkMenu = []string{"/", "<", ",", "?", "@", "#", "7", "\\", "=", "+", "*", "~", "$", "%", "^", "&", "<=", "\x01"}
+var JunkMenu = []string{"/", "<", ",", "?", "@", "#", "7", "\\", "=", "+", "*", "~", "$", "%", "^", "&", "<=", "\x01",
+	// characters an editor or a copy from a web page leaves behind and that look like white space: a byte order mark
+	// (anywhere, not only at the beginning), no-break and zero-width spaces, line and next-line separators, VT, FF, DEL
+	"\uFEFF", "\u00A0", "\u200B", "\u2028", "\u0085", "\v", "\f", "\x7f"}
 
 // BadCharLits / BadStringLits: texts that look like literals and are not (spec/gocc2.ebnf, "Lexical items").
 var BadCharLits = []string{`'\x41B'`, `'\nxyz'`, `'ab'`, `'\q'`, `'\18'`, `'\400'`, `'\ud800'`, `'\U00110000'`, `''`, `'\x4'`, `'\u12'`}
